@@ -15,7 +15,7 @@ From Coq Require Import ZArith List Bool.
 From PTK Require Import Lib.Sx Lib.Py Model.C11_Scroll Model.C11_CopyBody
      Proofs.C11_ScrollFacts Proofs.C11_CopyFacts Proofs.C11_LiveFacts Proofs.C11_WrapFacts
      Proofs.C11_ColMapFacts Proofs.C11_SeqFacts Proofs.C11_RowsFacts Proofs.C11_VarPrefixFacts
-     Proofs.C11_Main Proofs.C11_RenderFacts.
+     Proofs.C11_Main Proofs.C11_RenderFacts Proofs.C11_DocFacts.
 Import ListNotations.
 Open Scope Z_scope.
 
@@ -161,22 +161,21 @@ Print Assumptions C11_rows_consecutive.
    _copy_body), for every configuration of the model (any margins, any prefix
    shape incl. variable widths, any tabstop, BeforeInput, scroll offsets >= 0,
    allow_scroll_beyond_bottom either way), width-1 characters, any previous
-   scroll state: render succeeds, the content cursor column is the processors'
-   image of the document column and maps back to it, and the screen cursor lies
-   inside the window body.  [Hdoc]: the cursor row/column computed from the text
-   address a line of the document (what Document guarantees for
-   0 <= cursor <= len text; proved for the Document model in Props/C02.v). *)
+   scroll state, ANY text and cursor with 0 <= cursor <= len text: render
+   succeeds, the cursor row addresses a line of the document, the content cursor
+   column is the processors' image of the document column and maps back to it,
+   and the screen cursor lies inside the window body.  (That the row/column
+   computed from the text address a document line is derived from the Document
+   theorems of C02: Proofs/C11_DocFacts.v.) *)
 Theorem C11_render_wrap :
   forall g W Hh xpos ypos text cursor st,
   (forall c, tab_sw g c = 1 /\ tab_dw g c = 1) -> 0 <= g_tabstop g ->
   0 <= g_top g /\ 0 <= g_bottom g /\ 0 <= g_left g /\ 0 <= g_right g ->
-  1 <= Hh -> 0 <= vs st -> forall line,
-  0 <= r_row text cursor /\
-    nth_error (r_src text) (Z.to_nat (r_row text cursor)) = Some line /\
-    0 <= r_col text cursor <= len line ->
+  1 <= Hh -> 0 <= vs st -> 0 <= cursor <= len text ->
   g_wrap g = true ->
   (forall l k, epw (g_haspfx g) (cfg_pfx g) l k + 1 <= r_bwid g W text) ->
-  exists r ucol Y X,
+  exists line r ucol Y X,
+    nth_error (r_src text) (Z.to_nat (r_row text cursor)) = Some line /\
     render g W Hh xpos ypos text cursor st = Some r /\ r_status r = 0 /\
     r_ui r = (r_row text cursor, ucol) /\
     pl_d2s (process_line (g_bflag g) (g_before g) (g_tabstop g) TABCH1 TABCH2 (r_row text cursor) line) ucol
@@ -184,20 +183,18 @@ Theorem C11_render_wrap :
     r_cursor r = (Y, X) /\
     ypos <= Y < ypos + Hh /\
     xpos + r_mw r <= X < xpos + r_mw r + r_bw r /\ r_bw r = r_bwid g W text.
-Proof. exact render_wrap_cursor. Qed.
+Proof. exact render_wrap_cursor_doc. Qed.
 Print Assumptions C11_render_wrap.
 
 Theorem C11_render_nowrap :
   forall g W Hh xpos ypos text cursor st,
   (forall c, tab_sw g c = 1 /\ tab_dw g c = 1) -> 0 <= g_tabstop g ->
   0 <= g_top g /\ 0 <= g_bottom g /\ 0 <= g_left g /\ 0 <= g_right g ->
-  1 <= Hh -> forall line,
-  0 <= r_row text cursor /\
-    nth_error (r_src text) (Z.to_nat (r_row text cursor)) = Some line /\
-    0 <= r_col text cursor <= len line ->
+  1 <= Hh -> 0 <= cursor <= len text ->
   g_wrap g = false ->
   1 <= r_bwid g W text - (if g_haspfx g then strw (tab_sw g) (cfg_pfx g (r_row text cursor) 0) else 0) ->
-  exists r ucol Y X,
+  exists line r ucol Y X,
+    nth_error (r_src text) (Z.to_nat (r_row text cursor)) = Some line /\
     render g W Hh xpos ypos text cursor st = Some r /\ r_status r = 0 /\
     r_ui r = (r_row text cursor, ucol) /\
     pl_d2s (process_line (g_bflag g) (g_before g) (g_tabstop g) TABCH1 TABCH2 (r_row text cursor) line) ucol
@@ -205,7 +202,7 @@ Theorem C11_render_nowrap :
     r_cursor r = (Y, X) /\
     ypos <= Y < ypos + Hh /\
     xpos + r_mw r <= X < xpos + r_mw r + r_bw r /\ r_bw r = r_bwid g W text.
-Proof. exact render_nowrap_cursor. Qed.
+Proof. exact render_nowrap_cursor_doc. Qed.
 Print Assumptions C11_render_nowrap.
 
 (* get_height_for_line (fast path and prefix path, with and without
@@ -230,6 +227,26 @@ Theorem C11_colmap_inverse : forall bflag before tabstop c1 c2 lineno line,
   pl_d2s (process_line bflag before tabstop c1 c2 lineno line) d = i.
 Proof. exact colmap_inverse. Qed.
 Print Assumptions C11_colmap_inverse.
+
+(* display -> source on EVERY display column, not only on images of source
+   columns: a display column d inside the image interval [s2d i, s2d (i+1)) of
+   source column i (e.g. strictly inside a multi-cell expanded TAB) maps back
+   to i - for TabsProcessor's position_mappings and for the merged map. *)
+Theorem C11_colmap_interior_tabs : forall tabstop c1 c2 line i a b d, 1 <= tabstop ->
+  let m := snd (tabs_go tabstop c1 c2 line 0) in
+  nth_error m i = Some a -> nth_error m (S i) = Some b -> a <= d < b ->
+  tabs_d2s m d = Z.of_nat i.
+Proof. exact tabs_processor_interior. Qed.
+Print Assumptions C11_colmap_interior_tabs.
+
+Theorem C11_colmap_interior : forall bflag before tabstop c1 c2 lineno line,
+  0 <= tabstop -> forall i a b d, 0 <= i ->
+  pl_s2d (process_line bflag before tabstop c1 c2 lineno line) i = Some a ->
+  pl_s2d (process_line bflag before tabstop c1 c2 lineno line) (i + 1) = Some b ->
+  a <= d < b ->
+  pl_d2s (process_line bflag before tabstop c1 c2 lineno line) d = i.
+Proof. exact colmap_interior. Qed.
+Print Assumptions C11_colmap_interior.
 
 Theorem C11_colmap_monotone : forall bflag before tabstop c1 c2 lineno line,
   0 <= tabstop -> forall i j a b, 0 <= i -> i < j ->
